@@ -3,7 +3,7 @@
    shadow log): closedness of each view, deletion of the whole star across indices, the results of
    complexes(). *)
 From Coq Require Import String ZArith Bool Arith List.
-From SV Require Import Names NamesFacts ListFacts Rep Fresh Complex Atomic RepInv Homology Filtration FiltProofs Shapes SnapProofs.
+From SV Require Import Names NamesFacts ListFacts Rep Fresh Complex Atomic RepInv Homology Filtration FiltProofs Shapes SnapProofs FiltClosed.
 From SV Require Closed ClosedReach.
 Import ListNotations.
 
@@ -43,3 +43,16 @@ Theorem C13_snapshot_is_closed :
   forall hp (f : filt) uid hp' c x, copy_new hp (f_view f) uid = (hp', c, x) -> Closed.cinv c.
 Proof. intros hp f uid hp' c x. exact (ClosedReach.copy_new_cinv hp (f_view f) uid hp' c x). Qed.
 Print Assumptions C13_snapshot_is_closed.
+
+(* EVERY HISTORY of setting the index (to anything, in any order), stepping, adding and deleting:
+   the invariant minv = shapes + "exactly the simplices have a birth" + "a face is born no later
+   than its cofaces" holds ... *)
+Theorem C13_history_invariant : forall uid i0 ops, minv (fold_left fstep ops (new_filt uid i0)).
+Proof. exact filtration_history_minv. Qed.
+Print Assumptions C13_history_invariant.
+(* ... hence the complex seen at any index is closed under faces *)
+Theorem C13_view_closed_under_faces :
+  forall f i s t, minv f -> f_contains (at_index f i) s = true -> In t (faces (f_rep f) s) ->
+  f_contains (at_index f i) t = true.
+Proof. exact view_closed_under_faces. Qed.
+Print Assumptions C13_view_closed_under_faces.
